@@ -296,6 +296,24 @@ func TestVerif_C01_Envelopes(t *testing.T) {
 				decrypting++
 			}
 		}
+		// (e) the insider first relays a genuine message of the sender outside the store (push), announcing it under the
+		// content identifier of an entry it forged for the same counter; then the forged entry arrives through the store
+		for i, m := range msgs {
+			if openBefore[i] && rapid.Bool().Draw(rt, "e-skip-opened") {
+				continue
+			}
+			mk := vMessageKeyAt(sCK.ChainKey, c0, m.counter, gid)
+			fenv := vBuildEnvelope(g, &protocoltypes.MessageHeaders{Counter: m.counter, DevicePk: sDev, Sig: insiderSig}, vSealPayloadWithKey(mk, m.counter, vWrap(forged)), nonce())
+			if oos, err := w.M.s.SealOutOfStoreMessageEnvelope(vCID(fenv), m.menv, m.hdr, g); err == nil {
+				b, _ := proto.Marshal(oos)
+				_, _, _, _, perr := w.R.s.OpenOutOfStoreMessage(vctx, b)
+				trace = append(trace, fmt.Sprintf("push of genuine #%d announced under the identifier of a forged entry -> err=%v", m.counter, perr))
+			}
+			present("e/forged-entry-announced-by-push", fenv, g, 2)
+			classes["e"] = true
+			decrypting++
+			break
+		}
 		// a rejected forgery neither consumes nor corrupts the genuine message
 		for i, m := range msgs {
 			if openBefore[i] {
